@@ -92,6 +92,8 @@ class GenElab:
              "decos": self.decos(kind, allow_pre, snap_pool)}
         if name in ("f", "g", "p") and self.rng.random() < 0.15:
             m["abstract"] = True         # abc.abstractmethod under the contracts: abstractness must survive every wrapper
+        if name in ("f", "g") and kind == "plain" and self.rng.random() < 0.12:
+            m["renamed"] = True          # bound in the class under a name other than the function's own
         return m
 
     def history(self):
@@ -361,6 +363,12 @@ def py_member(m, ind, lines_out):
     # a docstring and annotations, so that their preservation can be observed
     if m.get("abstract"):
         decos = ["@abc.abstractmethod"] + decos          # nearest to the function
+    if m.get("renamed") and m["kind"] == "plain" and not m.get("toplevel") and not head:
+        # the member is a function defined under another name (`area = _area_fast`): its __name__ is not the member's
+        impl = "icv_impl_" + name
+        return helpers, [ind + d for d in reversed(decos)] + [
+            "%s%s %s(%s) -> 'R_%s': 'doc of %s'; %s" % (ind, adef, impl, text, name.strip("_"), name, body),
+            "%s%s = %s" % (ind, name, impl), "%sdel %s" % (ind, impl)]
     return helpers, head + [ind + d for d in reversed(decos)] + ["%s%s %s(%s) -> 'R_%s': 'doc of %s'; %s"
                                                                  % (ind, adef, name, text, name.strip("_"), name, body)]
 
